@@ -392,7 +392,74 @@ func ruleC13Advance(cx *Ctx) {
 			}
 		}
 		cx.R.Check(ok, rule, name, "level sweep", cx.P.where(call), "a level is swept whenever its tick delta is non-zero, with that delta")
+		// ... and under no other condition: the guards of the sweep are the level loop's bound and tests of tick counts /
+		// their difference (a coarser "has a whole second passed" test skips sweeps whose tick did change)
+		isTick := func(v ssa.Value) bool {
+			// a value computed from a time shifted by (or divided by the span of) the level
+			var walk func(v ssa.Value, d int) bool
+			walk = func(v ssa.Value, d int) bool {
+				if d > 6 {
+					return false
+				}
+				switch x := stripConv(v).(type) {
+				case *ssa.BinOp:
+					if x.Op == token.SHR || x.Op == token.QUO {
+						return true
+					}
+					return walk(x.X, d+1) || walk(x.Y, d+1)
+				case *ssa.Phi:
+					for _, e := range x.Edges {
+						if walk(e, d+1) {
+							return true
+						}
+					}
+				}
+				return false
+			}
+			return walk(v, 0)
+		}
+		extra := ""
+		for _, g := range guardsAt(call.Block()) {
+			b, isB := g.Cond.(*ssa.BinOp)
+			if !isB {
+				extra = "a non-comparison guard"
+				continue
+			}
+			if _, _, okI := loopInduction2(b); okI {
+				continue // the level loop's bound
+			}
+			if isTick(b.X) || isTick(b.Y) {
+				continue
+			}
+			extra = "guard " + b.String()
+		}
+		cx.R.Check(extra == "", rule, name, "no other sweep condition", cx.P.where(call), "only the level bound and the tick comparison decide whether a level is swept ("+extra+")")
 	}
+	// the wheel time is advanced on every returning path
+	if st != nil {
+		okAll := true
+		allInstrs(fn, func(in ssa.Instruction) {
+			if r, isR := in.(*ssa.Return); isR && !instrDominates(st, r) {
+				okAll = false
+			}
+		})
+		cx.R.Check(okAll, rule, name, "advance on every path", cx.P.where(st), "every call of DeleteExpired moves the wheel time to the caller's time (an early return leaves the wheel behind)")
+	}
+}
+
+// loopInduction2: the comparison is the bound test of a counting loop (phi < bound or phi+1 < bound).
+func loopInduction2(b *ssa.BinOp) (ssa.Value, ssa.Value, bool) {
+	for _, v := range []ssa.Value{b.X, b.Y} {
+		if ph, ok := v.(*ssa.Phi); ok {
+			if init, bound, ok2 := loopInduction(ph); ok2 {
+				return init, bound, true
+			}
+		}
+		if _, _, _, ok := indexInduction(v); ok {
+			return nil, nil, true
+		}
+	}
+	return nil, nil, false
 }
 
 func ruleC13Order(cx *Ctx) {
